@@ -353,6 +353,19 @@ def f_base_client_nested_definition(c):
 f_base_client_nested_definition.applies = "client"
 
 
+def f_client_only_options_in_schema_mode(c):
+    """graphqlschema reads the schema-source and plugin options only: everything else in the shared section - also client
+    options with values the client strategy would refuse - is foreign to it and ignored."""
+    c.cfg["scalars"] = {"DATETIME": {}, "Money": {"serialize": "str"}}
+    c.cfg["queries_path"] = "no/such/queries"
+    c.cfg["client_name"] = "not a name"
+    c.cfg["base_client_file_path"] = "no/such/base.py"
+    c.cfg["files_to_include"] = ["no/such/file.py"]
+    c.cfg["include_comments"] = "sometimes"
+    c.expect = ("valid",)
+f_client_only_options_in_schema_mode.applies = "graphqlschema"
+
+
 def f_reordered_keys(c):
     items = list(c.cfg.items())
     scal = [(k, v) for k, v in items if not isinstance(v, dict)]
@@ -770,6 +783,7 @@ OP_RULES = ["unknown_field", "leaf_with_selection", "object_without_selection", 
 
 FAULTS: Dict[str, Callable] = {
     "control:no_fault": f_no_fault, "control:unknown_keys": f_unknown_keys, "control:unknown_lookalike_keys": f_unknown_lookalike_keys,
+    "control:client_only_options_in_schema_mode": f_client_only_options_in_schema_mode,
     "control:reordered_keys": f_reordered_keys, "control:files_to_include_unsorted": f_files_to_include_unsorted,
     "control:base_client_nested_definition": f_base_client_nested_definition,
     "control:graphql_comments": f_graphql_comments, "control:header_var_set": f_header_var_set, "control:deprecated_section": f_deprecated_section, "control:unrelated_tables": f_unrelated_tables,
